@@ -42,6 +42,7 @@ RELABEL = {
     'optional_field_reused': {'*': ['C02']}, 'closure_field_named_result': {'*': ['C02']},
     'memo_user_ctx': {'C06': ['C06'], '*': ['C05']}, 'memo_failure_reuse': {'C06': ['C06'], '*': ['C05']},
     'char_rule_ws': {'C10': ['C10'], '*': ['C08', 'C01']}, 'term_insensitive_nonletter': {'C10': ['C10'], '*': ['C01', 'C12']},
+    'term_closure_range_utf8': {'C10': ['C10'], 'C04': ['C04'], '*': ['C01']},
     'enum_field': {'*': ['C02']}, 'boxed': {'*': ['C02']}, 'box_merge': {'*': ['C02']}, 'override_simple': {'*': ['C02']}, 'override_enum': {'*': ['C02']},
 }
 # driver-level verdicts (reject / compile / same_as) and compile errors are attributed to:
